@@ -84,6 +84,14 @@ def gen(ctx, rnd, quick):
         add("p2sh-extra-items-noclean", p2sh(red), P.push(b"\x07") + P.push(red), flags=NOCLEAN)
         add("p2sh-wrong-hash", bytes([0xa9, 20]) + rb(rnd, 20) + bytes([0x87]), P.push(red))
         add("p2sh-flag-off", p2sh(b"\x00"), P.push(b"\x00"), flags=R.STD & ~(1 << FB["P2SH"]) & ~(1 << FB["CLEANSTACK"]) & ~(1 << FB["WITNESS"]) & ~(1 << FB["TAPROOT"]))
+        # limits are per script: the operation count restarts with the scriptPubKey and with the redeem script
+        add("opcount-per-script", bytes([0x61]) * 200 + bytes([0x51]), bytes([0x61]) * 201, flags=NOPUSH)
+        add("opcount-per-script-exceeded", bytes([0x61]) * 202 + bytes([0x51]), bytes([0x61]) * 201, flags=NOPUSH)
+        add("opcount-scriptsig-exceeded", bytes([0x51]), bytes([0x61]) * 202, flags=NOPUSH)
+        red201 = bytes([0x61]) * 201 + bytes([0x51])
+        add("opcount-redeem-restarts", p2sh(red201), P.push(red201))
+        add("stack-carries-over", bytes([0x75]) * 998 + bytes([0x51]) if False else bytes([0x6d]) * 499 + bytes([0x75]), bytes([0x51]) * 1000, flags=NOCLEAN)
+        add("stack-limit-across", bytes([0x51]), bytes([0x51]) * 1000, flags=NOCLEAN)
         add("bare-true", bytes([0x51]))
         add("bare-false", bytes([0x00]))
         add("bare-empty-stack", bytes([0x61]))
